@@ -46,9 +46,17 @@ ErrM(st, m) == [k |-> "e", u |-> FALSE, v |-> m, s |-> st]        \* built-in er
 ErrU(st, v) == [k |-> "e", u |-> TRUE, v |-> v, s |-> st]
 Brk(st, l) == [k |-> "b", l |-> l, s |-> st]
 Unm(st, why) == [k |-> "x", why |-> why, s |-> st]
+Nop(st) == [k |-> "n", s |-> st]           \* no value, but the effects (inputs read, side records) up to here
 IsV(o) == o.k = "v"
-Ended(os) == os # <<>> /\ os[Len(os)].k # "v"
+IsN(o) == o.k = "n"
+Ended(os) == os # <<>> /\ os[Len(os)].k \notin {"v", "n"}
+Eff(s) == <<s.ins, s.side>>
 LastSt(os, st) == IF os = <<>> THEN st ELSE os[Len(os)].s      \* effects (ins, side) after a sequence of outcomes
+WithEff(os, st, e) == IF Ended(os) \/ Eff(LastSt(os, st)) = Eff(e) THEN os ELSE Append(os, Nop(Back(st, e)))
+Vals(os) == SelectSeq(os, IsV)
+(* cut a sequence after its first terminating outcome *)
+Trunc(os) == LET is == {i \in 1 .. Len(os) : os[i].k \notin {"v", "n"}} IN
+             IF is = {} THEN os ELSE SubSeq(os, 1, CHOOSE i \in is : \A j \in is : i <= j)
 
 RECURSIVE HasOpaque(_)
 HasOpaque(v) == CASE v.t = "opaque" -> TRUE
@@ -57,23 +65,29 @@ HasOpaque(v) == CASE v.t = "opaque" -> TRUE
                   [] OTHER -> FALSE
 
 (* sequencing: run Op on every value outcome, threading effects; stop at the first non-value *)
+(* The engine is lazy: item i of a generator is consumed downstream before item i+1 is produced.  Sequences are strict, so  *)
+(* effects are placed as follows: if the generator itself has effects, the effects seen downstream of item i are those at the *)
+(* production of item i (and downstream must then be effect-free, else: outside the model); otherwise downstream effects are  *)
+(* threaded from item to item.                                                                                               *)
 FlatMap(os, st, Op(_)) ==
-    LET genEff == \E i \in 1 .. Len(os) : os[i].s.ins # os[1].s.ins \/ os[i].s.side # os[1].s.side
+    LET genEff == \E i \in 1 .. Len(os) : Eff(os[i].s) # Eff(st)
         RECURSIVE G(_, _)
-        G(i, eff) == IF i > Len(os) THEN <<>>
-                     ELSE IF ~IsV(os[i]) THEN <<os[i]>>
-                     ELSE LET r == Op(Back(os[i].s, eff))
-                              eff2 == LastSt(r, eff) IN
-                          IF genEff /\ (eff2.ins # eff.ins \/ eff2.side # eff.side)
-                          THEN <<Unm(eff2, "effects of a generator interleave with effects downstream")>>
-                          ELSE IF os[i].s.alt /\ Ended(r) /\ r[Len(r)].k = "e"
-                          THEN <<Unm(eff2, "error downstream of a live destructuring alternative")>>
-                          ELSE IF Ended(r) THEN r
-                          ELSE IF Len(r) > MaxOut THEN Append(r, Unm(eff2, "too many outputs"))
-                          ELSE LET rest == G(i + 1, eff2) IN r \o rest
-    IN G(1, LastSt(os, st))
-(* FlatMap threads `ins`/`side` forward: os was computed first, so its last effects are the starting effects; *)
-(* each os[i].s carries the effects at the time it was produced, which are superseded by later ones.          *)
+        G(i, eff) ==
+            IF i > Len(os) THEN [o |-> <<>>, e |-> eff]
+            ELSE LET cur == IF genEff THEN os[i].s ELSE eff IN
+                 IF IsN(os[i]) THEN G(i + 1, cur)
+                 ELSE IF ~IsV(os[i]) THEN [o |-> <<[os[i] EXCEPT !.s = Back(os[i].s, cur)]>>, e |-> cur]
+                 ELSE LET r == Op(Back(os[i].s, cur))
+                          eff2 == LastSt(r, cur) IN
+                      IF genEff /\ Eff(eff2) # Eff(cur)
+                      THEN [o |-> <<Unm(eff2, "effects of a generator interleave with effects downstream")>>, e |-> eff2]
+                      ELSE IF os[i].s.alt /\ Ended(r) /\ r[Len(r)].k = "e"
+                      THEN [o |-> <<Unm(eff2, "error downstream of a live destructuring alternative")>>, e |-> eff2]
+                      ELSE IF Ended(r) THEN [o |-> r, e |-> eff2]
+                      ELSE IF Len(r) > MaxOut THEN [o |-> Append(r, Unm(eff2, "too many outputs")), e |-> eff2]
+                      ELSE LET rest == G(i + 1, eff2) IN [o |-> r \o rest.o, e |-> rest.e]
+        res == G(1, st)
+    IN WithEff(res.o, st, res.e)
 
 (******************************** environment ******************************)
 (* vars: <<[n, v, id]>>; funcs: closures <<[n, ar, ps, body, env, param]>>; labels: <<[n, id]>>;               *)
@@ -238,14 +252,14 @@ Arith(op, l, r) ==
                        [] l.t = "arr" /\ r.t = "arr" -> JArr(RemoveAll(l.v, r.v))
                        [] OTHER -> Err
       [] op = "*" -> CASE l.t = "num" /\ r.t = "num" -> JNum(l.n * r.n)
-                       [] l.t = "str" /\ r.t = "num" -> IF r.n > 0 THEN JStr(Repeat(l.s, r.n)) ELSE JNull
-                       [] l.t = "num" /\ r.t = "str" -> IF l.n > 0 THEN JStr(Repeat(r.s, l.n)) ELSE JNull
+                       [] l.t = "str" /\ r.t = "num" -> IF r.n < 0 THEN JNull ELSE JStr(Repeat(l.s, r.n))
+                       [] l.t = "num" /\ r.t = "str" -> IF l.n < 0 THEN JNull ELSE JStr(Repeat(r.s, l.n))
                        [] l.t = "obj" /\ r.t = "obj" -> DeepMerge(l, r)
                        [] OTHER -> Err
       [] op = "/" -> CASE l.t = "num" /\ r.t = "num" -> IF r.n = 0 THEN Err
                                                        ELSE IF TruncMod(l.n, r.n) = 0 THEN JNum((IF (l.n < 0) = (r.n < 0) THEN 1 ELSE -1) * (AbsI(l.n) \div AbsI(r.n)))
                                                        ELSE Unk("fraction")
-                       [] l.t = "str" /\ r.t = "str" -> NSplit(l, r)
+                       [] l.t = "str" /\ r.t = "str" -> IF l.s = <<>> THEN JArr(<<>>) ELSE NSplit(l, r)
                        [] OTHER -> Err
       [] op = "%" -> CASE l.t = "num" /\ r.t = "num" -> IF r.n = 0 THEN Err ELSE JNum(TruncMod(l.n, r.n))
                        [] OTHER -> Err
@@ -456,19 +470,24 @@ RECURSIVE Eval(_, _, _), EvalTerm(_, _, _), EvalBase(_, _, _), EvalFn(_, _, _, _
 EvalArgs(args, i, st, cur, env) ==
     IF i = 0 THEN <<[k |-> "a", vals |-> <<>>, s |-> cur]>>
     ELSE LET os == Eval(args[i], [cur EXCEPT !.v = st.v, !.id = st.id], env)
+             genEff == \E j \in 1 .. Len(os) : Eff(os[j].s) # Eff(cur)
              RECURSIVE G(_, _)
-             G(j, eff) == IF j > Len(os) THEN <<>>
-                          ELSE IF ~IsV(os[j]) THEN <<os[j]>>
-                          ELSE LET inner == EvalArgs(args, i - 1, st, Back(os[j].s, eff), env)
-                                   mine == [m \in 1 .. Len(inner) |-> IF inner[m].k = "a" THEN [inner[m] EXCEPT !.vals = Append(@, os[j].s.v)] ELSE inner[m]]
-                                   eff2 == IF mine = <<>> THEN eff ELSE mine[Len(mine)].s IN
-                               IF mine # <<>> /\ mine[Len(mine)].k \notin {"a"} THEN mine ELSE mine \o G(j + 1, eff2)
-         IN G(1, LastSt(os, cur))
+             G(j, eff) == IF j > Len(os) THEN (IF Eff(eff) = Eff(cur) THEN <<>> ELSE <<Nop(eff)>>)
+                          ELSE LET now == IF genEff THEN os[j].s ELSE eff IN
+                               IF IsN(os[j]) THEN G(j + 1, now)
+                               ELSE IF ~IsV(os[j]) THEN <<os[j]>>
+                               ELSE LET inner == EvalArgs(args, i - 1, st, Back(os[j].s, now), env)
+                                        mine == [m \in 1 .. Len(inner) |-> IF inner[m].k = "a" THEN [inner[m] EXCEPT !.vals = Append(@, os[j].s.v)] ELSE inner[m]]
+                                        eff2 == IF mine = <<>> THEN now ELSE mine[Len(mine)].s IN
+                                    IF genEff /\ Eff(eff2) # Eff(now) THEN <<Unm(eff2, "effects of a generator interleave with effects downstream")>>
+                                    ELSE IF mine # <<>> /\ mine[Len(mine)].k \notin {"a", "n"} THEN mine ELSE mine \o G(j + 1, eff2)
+         IN G(1, cur)
 (* vals come out in argument order: vals[1] is the first argument *)
 ApplyNative(args, st, env, Op(_)) ==
     LET as == EvalArgs(args, Len(args), st, st, env) IN
     LET RECURSIVE G(_)
         G(j) == IF j > Len(as) THEN <<>>
+                ELSE IF IsN(as[j]) THEN <<as[j]>> \o G(j + 1)
                 ELSE IF as[j].k # "a" THEN <<as[j]>>
                 ELSE LET r == Guarded(as[j].s, <<st.v>> \o as[j].vals, Op(as[j].vals)) IN
                      IF Ended(r) THEN r ELSE r \o G(j + 1)
@@ -485,12 +504,11 @@ Eval(q, st, env0) ==
     ELSE LET op == q.op IN
     CASE op = "|" -> FlatMap(Eval(q.left, st, env), st, LAMBDA s : Eval(q.right, s, env))
       [] op = "," -> LET l == Eval(q.left, st, env) IN IF Ended(l) THEN l ELSE l \o Eval(q.right, Back(st, LastSt(l, st)), env)
-      [] op = "//" ->    \* truthy outputs of the left side; if there are none, the right side.  Errors of the left side end it quietly.
+      [] op = "//" ->    \* truthy outputs of the left side as they come (an error of the left side ends everything); if there were none, the right side
             LET l == Eval(q.left, st, env)
-                lv == SelectSeq(l, LAMBDA o : IsV(o) /\ Truthy(o.s.v))
-                stop == IF Ended(l) THEN l[Len(l)] ELSE <<>> IN
-            IF stop # <<>> /\ stop.k \in {"x", "b"} THEN Append(lv, stop)
-            ELSE IF lv # <<>> THEN (IF stop # <<>> /\ stop.k = "e" THEN Append(lv, stop) ELSE lv)
+                lv == SelectSeq(l, LAMBDA o : IsV(o) /\ Truthy(o.s.v)) IN
+            IF Ended(l) THEN Append(lv, l[Len(l)])
+            ELSE IF lv # <<>> THEN WithEff(lv, st, LastSt(l, st))
             ELSE Eval(q.right, Back(st, LastSt(l, st)), env)
       [] op = "and" -> EvalIf(q.left, IfQ(q.right, TrueQ, FalseQ), <<>>, FalseQ, st, env)
       [] op = "or" -> EvalIf(q.left, TrueQ, <<>>, IfQ(q.right, TrueQ, FalseQ), st, env)
@@ -521,7 +539,7 @@ EvalTerm(t, st, env) ==
                              ELSE IF m > 0 /\ HasF(lastS, "iter") THEN IterAll.term ELSE base
                   pre == IF m > 0 /\ (HasF(lastS, "index") \/ HasF(lastS, "iter")) THEN WithSuffixes(base, SubSeq(base.suffix_list, 1, m - 1)) ELSE <<>>
                   tryIt(x) == LET os == EvalTerm(tryBody, x, env) IN
-                              IF Ended(os) /\ os[Len(os)].k = "e" THEN SubSeq(os, 1, Len(os) - 1) ELSE os
+                              IF Ended(os) /\ os[Len(os)].k = "e" THEN WithEff(SubSeq(os, 1, Len(os) - 1), x, os[Len(os)].s) ELSE os
               IN IF pre = <<>> THEN tryIt(st) ELSE FlatMap(EvalTerm(pre, st, env), st, LAMBDA x : tryIt(x))
 
 (* T[key], T[a:b], T.name, T."str": constant keys index T's outputs directly; computed keys are evaluated first (on the input, *)
@@ -577,18 +595,20 @@ EvalObj(kvs, i, st, cur, env) ==
                           ELSE IndexStep([ks EXCEPT !.v = st.v, !.id = st.id], ks.v)       \* {a} == {a: .a}
              RECURSIVE G(_, _)
              G(pairs, j) == IF j > Len(pairs) THEN <<>>
+                            ELSE IF HasF(pairs[j], "k") /\ pairs[j].k = "n" THEN <<pairs[j]>> \o G(pairs, j + 1)
                             ELSE IF ~HasF(pairs[j], "kk") THEN <<pairs[j]>>
                             ELSE LET rest == EvalObj(kvs, i + 1, st, pairs[j].s, env)
                                      mine == [m \in 1 .. Len(rest) |-> IF rest[m].k = "a" THEN [rest[m] EXCEPT !.vals = <<<<pairs[j].kk, pairs[j].s.v>>>> \o @] ELSE rest[m]] IN
-                                 IF mine # <<>> /\ mine[Len(mine)].k # "a" THEN mine ELSE mine \o G(pairs, j + 1)
+                                 IF mine # <<>> /\ mine[Len(mine)].k \notin {"a", "n"} THEN mine ELSE mine \o G(pairs, j + 1)
              \* all (key, value) pairs of this entry in order, key outer
              pairsOf == LET RECURSIVE K(_, _)
                             K(j, eff) == IF j > Len(keyOs) THEN <<>>
+                                         ELSE IF IsN(keyOs[j]) THEN <<keyOs[j]>> \o K(j + 1, keyOs[j].s)
                                          ELSE IF ~IsV(keyOs[j]) THEN <<keyOs[j]>>
                                          ELSE LET ks == Back(keyOs[j].s, eff)
                                                   vs == valOf(ks)
                                                   tagged == [m \in 1 .. Len(vs) |-> IF IsV(vs[m]) THEN [kk |-> ks.v, s |-> vs[m].s] ELSE vs[m]] IN
-                                              IF Ended(vs) THEN tagged ELSE tagged \o K(j + 1, LastSt(vs, ks))
+                                              IF Ended(vs) THEN tagged ELSE tagged \o K(j + 1, LastSt(vs, ks))          \* (effects in keys and values of one literal are not interleaved faithfully)
                         IN K(1, LastSt(keyOs, cur))
          IN G(pairsOf, 1)
 
@@ -624,7 +644,7 @@ DestrSeq(items, i, v, env, st, isObj) ==
                  ELSE LET kos == IF HasF(ent, "key_string") THEN EvalStr(ent.key_string, "tostring", Fresh(NP(st), v), env)
                                  ELSE Eval(ent.key_query, Fresh(NP(st), v), env)
                           RECURSIVE K(_)
-                          K(j) == IF j > Len(kos) THEN <<>> ELSE IF ~IsV(kos[j]) THEN <<kos[j]>>
+                          K(j) == IF j > Len(kos) THEN <<>> ELSE IF IsN(kos[j]) THEN K(j + 1) ELSE IF ~IsV(kos[j]) THEN <<kos[j]>>
                                   ELSE LET r == chain(withKey(kos[j].s.v, env, Back(st, kos[j].s))) IN
                                        IF r # <<>> /\ r[Len(r)].k # "env" THEN r ELSE r \o K(j + 1)
                       IN K(1)
@@ -646,59 +666,74 @@ EvalBind(base, b, st, env) ==
                        IN G(1, eff)
                 mark(os) == [m \in 1 .. Len(os) |-> IF IsV(os[m]) THEN [os[m] EXCEPT !.s.alt = TRUE] ELSE os[m]] IN
             IF i < Len(b.patterns) /\ Ended(run) /\ run[Len(run)].k = "e"
-            THEN LET kept == SubSeq(run, 1, Len(run) - 1) IN mark(kept) \o TryPat(i + 1, src, LastSt(run, eff))
+            THEN LET kept == SubSeq(run, 1, Len(run) - 1) IN mark(kept) \o TryPat(i + 1, src, run[Len(run)].s)
             ELSE IF i < Len(b.patterns) THEN mark(run) ELSE run
     IN IF st.pm /\ Len(b.patterns) > 1 THEN <<Unm(st, "destructuring alternatives under path tracking")>>
        ELSE FlatMap(EvalTerm(base, NP(st), env), st, LAMBDA src : TryPat(1, src, src))
 
-(* reduce: for every start value; each item's LAST update output becomes the state (none: unchanged) *)
+(* reduce: for every start value; each item's LAST update output becomes the state (none: unchanged).  Items are produced *)
+(* lazily, one per round: the same rule for effects as in FlatMap.                                                          *)
 Reduce(r, st, env) ==
     IF st.pm /\ ~HasF(r.pattern, "name") THEN <<Unm(st, "destructuring reduce under path tracking")>>
     ELSE FlatMap(Eval(r.start, st, env), st, LAMBDA s0 :
-        LET items == Eval(r.query, Back(st, s0), env)
+        LET base == Back(st, s0)
+            items == Eval(r.query, base, env)
+            genEff == \E j \in 1 .. Len(items) : Eff(items[j].s) # Eff(base)
             RECURSIVE G(_, _)
-            G(j, acc) ==      \* acc: state record carrying the accumulator value and effects
+            G(j, acc) ==      \* acc: state carrying the accumulator value and the effects so far
                 IF j > Len(items) THEN <<OutV(acc)>>
-                ELSE IF ~IsV(items[j]) THEN <<[items[j] EXCEPT !.s = Back(items[j].s, acc)]>>
-                ELSE LET ds == Destr(r.pattern, items[j].s.v, items[j].s.id, env, acc)
-                         RECURSIVE D(_, _)
-                         D(m, a) == IF m > Len(ds) THEN <<OutV(a)>> ELSE IF ds[m].k # "env" THEN <<ds[m]>>
-                                    ELSE LET us == Eval(r.update, Back(a, ds[m].s), ds[m].e) IN
-                                         IF Ended(us) THEN <<us[Len(us)]>>
-                                         ELSE D(m + 1, IF us = <<>> THEN Back(a, ds[m].s) ELSE us[Len(us)].s)
-                         after == D(1, acc) IN
-                     IF ~IsV(after[1]) THEN after ELSE G(j + 1, after[1].s)
-        IN G(1, [s0 EXCEPT !.id = NoId]))
+                ELSE LET cur == IF genEff THEN Back(acc, items[j].s) ELSE acc IN
+                     IF IsN(items[j]) THEN G(j + 1, cur)
+                     ELSE IF ~IsV(items[j]) THEN <<[items[j] EXCEPT !.s = Back(items[j].s, cur)]>>
+                     ELSE LET ds == Destr(r.pattern, items[j].s.v, items[j].s.id, env, cur)
+                              RECURSIVE D(_, _)
+                              D(m, a) == IF m > Len(ds) THEN <<OutV(a)>> ELSE IF ds[m].k # "env" THEN <<ds[m]>>
+                                         ELSE LET us == Eval(r.update, Back(a, ds[m].s), ds[m].e)
+                                                  vs == Vals(us) IN
+                                              IF Ended(us) THEN <<us[Len(us)]>>
+                                              ELSE D(m + 1, IF vs = <<>> THEN Back(a, LastSt(us, ds[m].s)) ELSE [Back(vs[Len(vs)].s, LastSt(us, a)) EXCEPT !.id = NoId])
+                              after == D(1, cur) IN
+                          IF ~IsV(after[1]) THEN after
+                          ELSE IF genEff /\ Eff(after[1].s) # Eff(cur) THEN <<Unm(after[1].s, "effects of a generator interleave with effects downstream")>>
+                          ELSE G(j + 1, after[1].s)
+        IN G(1, [base EXCEPT !.v = s0.v, !.id = NoId]))
 (* foreach: every update output becomes the state and is emitted (through extract) *)
 Foreach(f, st, env) ==
     IF st.pm /\ ~HasF(f.pattern, "name") THEN <<Unm(st, "destructuring foreach under path tracking")>>
     ELSE FlatMap(Eval(f.start, st, env), st, LAMBDA s0 :
-        LET items == Eval(f.query, Back(st, s0), env)
+        LET base == Back(st, s0)
+            items == Eval(f.query, base, env)
+            genEff == \E j \in 1 .. Len(items) : Eff(items[j].s) # Eff(base)
+            \* result of a round: outcomes emitted, then [k |-> "acc", s] (the state to go on with) unless terminated
             RECURSIVE G(_, _)
             G(j, acc) ==
-                IF j > Len(items) THEN <<[k |-> "acc", s |-> acc]>>
-                ELSE IF ~IsV(items[j]) THEN <<[items[j] EXCEPT !.s = Back(items[j].s, acc)]>>
-                ELSE LET it == items[j].s
-                         ds == Destr(f.pattern, it.v, it.id, env, acc)
-                         \* the state flows on with the path context the item left behind
-                         RECURSIVE D(_, _)
-                         D(m, a) == IF m > Len(ds) THEN <<[k |-> "acc", s |-> a]>> ELSE IF ds[m].k # "env" THEN <<ds[m]>>
-                                    ELSE LET us == Eval(f.update, [it EXCEPT !.v = a.v, !.id = NoId, !.ins = ds[m].s.ins, !.side = ds[m].s.side], ds[m].e)
-                                             RECURSIVE U(_, _)
-                                             U(n, a2) == IF n > Len(us) THEN <<[k |-> "acc", s |-> a2]>>
-                                                         ELSE IF ~IsV(us[n]) THEN <<us[n]>>
-                                                         ELSE LET ex == IF HasF(f, "extract") THEN Eval(f.extract, Back(us[n].s, a2), ds[m].e) ELSE <<OutV(Back(us[n].s, a2))>>
-                                                                  a3 == [us[n].s EXCEPT !.ins = LastSt(ex, a2).ins, !.side = LastSt(ex, a2).side] IN
-                                                              IF Ended(ex) THEN ex ELSE ex \o U(n + 1, a3)
-                                         IN LET r == U(1, a) IN
-                                            IF r[Len(r)].k # "acc" THEN r ELSE SubSeq(r, 1, Len(r) - 1) \o D(m + 1, r[Len(r)].s)
-                         after == D(1, acc) IN
-                     IF after[Len(after)].k # "acc" THEN after ELSE SubSeq(after, 1, Len(after) - 1) \o G(j + 1, after[Len(after)].s)
-            all == G(1, [s0 EXCEPT !.id = NoId])
-        IN IF all # <<>> /\ all[Len(all)].k = "acc" THEN SubSeq(all, 1, Len(all) - 1) ELSE all)
+                IF j > Len(items) THEN <<Nop(acc)>>
+                ELSE LET cur == IF genEff THEN Back(acc, items[j].s) ELSE acc IN
+                     IF IsN(items[j]) THEN G(j + 1, cur)
+                     ELSE IF ~IsV(items[j]) THEN <<[items[j] EXCEPT !.s = Back(items[j].s, cur)]>>
+                     ELSE LET it == items[j].s
+                              ds == Destr(f.pattern, it.v, it.id, env, cur)
+                              RECURSIVE D(_, _)
+                              D(m, a) == IF m > Len(ds) THEN <<[k |-> "acc", s |-> a]>> ELSE IF ds[m].k # "env" THEN <<ds[m]>>
+                                         ELSE LET us == Eval(f.update, [it EXCEPT !.v = a.v, !.id = NoId, !.ins = ds[m].s.ins, !.side = ds[m].s.side, !.alt = st.alt], ds[m].e)
+                                                  RECURSIVE U(_, _)
+                                                  U(n, a2) == IF n > Len(us) THEN <<[k |-> "acc", s |-> Back(a2, LastSt(us, a2))]>>
+                                                              ELSE IF IsN(us[n]) THEN U(n + 1, a2)
+                                                              ELSE IF ~IsV(us[n]) THEN <<us[n]>>
+                                                              ELSE LET ex == IF HasF(f, "extract") THEN Eval(f.extract, us[n].s, ds[m].e) ELSE <<OutV(us[n].s)>>
+                                                                       a3 == Back(us[n].s, LastSt(ex, us[n].s)) IN
+                                                                   IF Ended(ex) THEN ex ELSE ex \o U(n + 1, a3)
+                                                  r == U(1, a) IN
+                                              IF r[Len(r)].k # "acc" THEN r ELSE SubSeq(r, 1, Len(r) - 1) \o D(m + 1, [r[Len(r)].s EXCEPT !.id = NoId])
+                              after == D(1, cur) IN
+                          IF after[Len(after)].k # "acc" THEN after
+                          ELSE IF genEff /\ Eff(after[Len(after)].s) # Eff(cur) THEN <<Unm(cur, "effects of a generator interleave with effects downstream")>>
+                          ELSE SubSeq(after, 1, Len(after) - 1) \o G(j + 1, after[Len(after)].s)
+        IN G(1, [base EXCEPT !.v = s0.v, !.id = NoId]))
 
 CutLabel(os, id) == LET is == {i \in 1 .. Len(os) : os[i].k = "b" /\ os[i].l = id} IN
-                    IF is = {} THEN os ELSE SubSeq(os, 1, (CHOOSE i \in is : \A j \in is : i <= j) - 1)
+                    IF is = {} THEN os
+                    ELSE LET n == CHOOSE i \in is : \A j \in is : i <= j IN Append(SubSeq(os, 1, n - 1), Nop(os[n].s))
 
 EvalBase(t, st, env) ==
     LET ty == t.type IN
@@ -718,18 +753,18 @@ EvalBase(t, st, env) ==
       [] ty = "TermTypeObject" ->
             IF ~HasF(t.object, "key_vals") THEN <<OutV(Fresh(st, JEmptyObj))>>
             ELSE LET rs == EvalObj(t.object.key_vals, 1, st, st, env) IN
-                 [i \in 1 .. Len(rs) |->
+                 Trunc([i \in 1 .. Len(rs) |->
                     IF rs[i].k # "a" THEN rs[i]
                     ELSE IF \E j \in 1 .. Len(rs[i].vals) : rs[i].vals[j][1].t # "str"
                          THEN (IF \E j \in 1 .. Len(rs[i].vals) : HasOpaque(rs[i].vals[j][1]) THEN Unm(rs[i].s, "uses the text of a built-in error message") ELSE ErrB(rs[i].s))
                          \* the engine keeps the FIRST of duplicate keys
                          ELSE OutV(Fresh([st EXCEPT !.ins = rs[i].s.ins, !.side = rs[i].s.side, !.P = rs[i].s.P, !.W = rs[i].s.W],
-                                         ObjFromPairs([j \in 1 .. Len(rs[i].vals) |-> <<rs[i].vals[Len(rs[i].vals) + 1 - j][1].s, rs[i].vals[Len(rs[i].vals) + 1 - j][2]>>])))]
+                                         ObjFromPairs([j \in 1 .. Len(rs[i].vals) |-> <<rs[i].vals[Len(rs[i].vals) + 1 - j][1].s, rs[i].vals[Len(rs[i].vals) + 1 - j][2]>>])))])
       [] ty = "TermTypeArray" ->
             IF ~HasF(t.array, "query") THEN <<OutV(Fresh(st, JArr(<<>>)))>>
             ELSE LET os == Eval(t.array.query, st, env) IN
                  IF Ended(os) THEN <<[os[Len(os)] EXCEPT !.s = Back(st, os[Len(os)].s)]>>
-                 ELSE <<OutV(Fresh(Back(st, LastSt(os, st)), JArr([i \in 1 .. Len(os) |-> os[i].s.v])))>>          \* the generator is exhausted: st.alt as on entry
+                 ELSE LET vs == Vals(os) IN <<OutV(Fresh(Back(st, LastSt(os, st)), JArr([i \in 1 .. Len(vs) |-> vs[i].s.v])))>>          \* the generator is exhausted: st.alt as on entry
       [] ty = "TermTypeUnary" ->
             LET u == t.unary.term IN
             IF u.type = "TermTypeNumber" /\ ~HasF(u, "suffix_list") THEN
@@ -742,7 +777,7 @@ EvalBase(t, st, env) ==
             LET os == Eval(t.try.body, st, env) IN
             IF Ended(os) /\ os[Len(os)].k = "e" THEN
                 LET e == os[Len(os)] kept == SubSeq(os, 1, Len(os) - 1) IN
-                IF HasF(t.try, "catch") THEN kept \o Eval(t.try.catch, Fresh(Back(NP(st), e.s), e.v), env) ELSE kept
+                IF HasF(t.try, "catch") THEN kept \o Eval(t.try.catch, [Fresh(Back(NP(st), e.s), e.v) EXCEPT !.alt = st.alt], env) ELSE WithEff(kept, st, e.s)
             ELSE os
       [] ty = "TermTypeReduce" -> Reduce(t.reduce, st, env)
       [] ty = "TermTypeForeach" -> Foreach(t.foreach, st, env)
@@ -784,12 +819,12 @@ EvalFn(n, args, st, env) ==
                  LET fr == env.dc + 1
                      inner == [st EXCEPT !.pm = TRUE, !.f = fr, !.P = <<>>, !.W = st.v, !.id = [f |-> fr, p |-> <<>>]]
                      os == Eval(args[1], inner, [env EXCEPT !.dc = fr]) IN
-                 [i \in 1 .. Len(os) |->
+                 Trunc([i \in 1 .. Len(os) |->
                     IF ~IsV(os[i]) THEN [os[i] EXCEPT !.s = Back(st, os[i].s)]
                     ELSE LET it == Intact(os[i].s) IN
                          IF it = "unk" THEN Unm(Back(st, os[i].s), "identity of an empty array")
                          ELSE IF it = "no" THEN ErrB(Back(st, os[i].s))
-                         ELSE OutV(Fresh(Back(st, os[i].s), JArr(os[i].s.P)))]
+                         ELSE OutV(Fresh(Back(st, os[i].s), JArr(os[i].s.P)))])
            [] n = "getpath" /\ ar = 1 ->
                  FlatMap(Eval(args[1], NP(st), env), st, LAMBDA p :
                     LET x == Back(st, p) IN
@@ -802,8 +837,9 @@ EvalFn(n, args, st, env) ==
                               IF it = "unk" THEN <<Unm(x, "identity of an empty array")>> ELSE IF it = "no" THEN <<ErrB(x)>>
                               ELSE <<OutV([x EXCEPT !.v = w, !.P = x.P \o p.v.v, !.W = w, !.id = [f |-> x.f, p |-> x.P \o p.v.v]])>>)
            [] n = "last" /\ ar = 1 ->
-                 LET os == Eval(args[1], st, env) IN
-                 IF Ended(os) THEN <<os[Len(os)]>> ELSE IF os = <<>> THEN <<>> ELSE <<os[Len(os)]>>
+                 LET os == Eval(args[1], st, env) vs == Vals(os) IN
+                 IF Ended(os) THEN <<os[Len(os)]>> ELSE IF vs = <<>> THEN WithEff(<<>>, st, LastSt(os, st))
+                 ELSE <<OutV(Back(vs[Len(vs)].s, LastSt(os, st)))>>
            [] n = "input" /\ ar = 0 ->
                  IF st.ins = <<>> THEN <<ErrM(st, JStr(LibStr["break"]))>>
                  ELSE <<OutV(Fresh([st EXCEPT !.ins = Tail(st.ins)], Head(st.ins)))>>
@@ -824,7 +860,7 @@ EvalFn(n, args, st, env) ==
                                      ELSE IF c.n < 0 THEN (IF b.n < a.n THEN ((a.n - b.n - 1) \div (-c.n)) + 1 ELSE 0) ELSE 0
                      rng(a, b, c) == [i \in 1 .. cnt(a, b, c) |-> a.n + (i - 1) * c.n]
                      RECURSIVE G(_)
-                     G(j) == IF j > Len(as) THEN <<>> ELSE IF as[j].k # "a" THEN <<as[j]>>
+                     G(j) == IF j > Len(as) THEN <<>> ELSE IF IsN(as[j]) THEN <<as[j]>> \o G(j + 1) ELSE IF as[j].k # "a" THEN <<as[j]>>
                              ELSE LET v == as[j].vals IN
                                   IF \E i \in 1 .. 3 : HasOpaque(v[i]) THEN <<Unm(as[j].s, "uses the text of a built-in error message")>>
                                   ELSE IF \E i \in 1 .. 3 : v[i].t # "num" THEN <<ErrB(as[j].s)>>
@@ -853,6 +889,9 @@ EvalFn(n, args, st, env) ==
            [] OTHER -> <<Unm(st, "function outside the core")>>
 
 (********************************* top level ********************************)
+(* literal tables of the vocabulary the generated programs use *)
+StdLit == [str |-> ("a" :> <<97>>) @@ ("b" :> <<98>>) @@ ("ab" :> <<97, 98>>) @@ ("key" :> K_key) @@ ("value" :> K_value) @@ ("x" :> <<120>>) @@ (", " :> <<44, 32>>),
+           num |-> ("0" :> 0) @@ ("1" :> 1) @@ ("2" :> 2) @@ ("3" :> 3)]
 Outcome(o) == CASE o.k = "v" -> IF HasOpaque(o.s.v) THEN [k |-> "x", why |-> "outputs the text of a built-in error message"] ELSE [k |-> "v", v |-> o.s.v]
                 [] o.k = "e" -> IF o.u /\ HasOpaque(o.v) THEN [k |-> "x", why |-> "raises the text of a built-in error message"]
                                 ELSE [k |-> "e", u |-> o.u, v |-> IF o.u THEN o.v ELSE JNull]
@@ -860,7 +899,8 @@ Outcome(o) == CASE o.k = "v" -> IF HasOpaque(o.s.v) THEN [k |-> "x", why |-> "ou
                 [] o.k = "x" -> [k |-> "x", why |-> o.why]
 Run(q, input, inputs, lit) ==
     LET os == Eval(q, St0(input, inputs), Env0(lit))
-        outs == [i \in 1 .. Len(os) |-> Outcome(os[i])]
+        real == SelectSeq(os, LAMBDA o : ~IsN(o))
+        outs == [i \in 1 .. Len(real) |-> Outcome(real[i])]
         bad == {i \in 1 .. Len(outs) : outs[i].k = "x"} IN
     IF bad # {} THEN [out |-> <<outs[CHOOSE i \in bad : \A j \in bad : i <= j]>>, side |-> <<>>, core |-> FALSE]
     ELSE [out |-> outs, side |-> LastSt(os, St0(input, inputs)).side, core |-> TRUE]
